@@ -17,8 +17,9 @@
    The run-time table gives the kind of the result when none of the language's own dynamic failures
    (zero divisor, overflow, failed conversion of a repeat count / shift amount) occurs; those depend on
    the VALUES and are the subject of C05.  `RErr` is an `anyhow` error ("<A + B> is invalid", "cannot
-   compare", "unknown operation", "cannot negate"), `RPanic` a Rust panic ("boolean comparison on a
-   non-boolean"): both are run-time TYPE errors in the sense of property C02. *)
+   compare", "unknown operation", "cannot negate"), `RPanic` a Rust panic (none is left in the tables: the
+   ordering operators used to panic with "boolean comparison on a non-boolean"): both are run-time TYPE
+   errors in the sense of property C02. *)
 From Coq Require Import List Bool.
 Import ListNotations.
 
@@ -214,8 +215,10 @@ Definition rt_base (fixed : bool) (o : op) (a b : kind) : rt :=
                 end
       end
   | Lt | Gt | Lte | Gte =>
-      (* apply_bool_bin_op_if_applicable: `_ => panic!("boolean comparison on a non-boolean")` *)
-      if is_num a && is_num b then ROk KBool else RPanic
+      (* bin_op guards the four ordering operators: "<A > B> is invalid" unless both operands are numbers (fix
+         "nil-ordering-comparison"; before it the operands reached apply_bool_bin_op_if_applicable, whose
+         `_ => panic!("boolean comparison on a non-boolean")` was an `RPanic` here) *)
+      if is_num a && is_num b then ROk KBool else RErr
   | Eq | Neq => rt_equals a b
   | And | Or | Xor => match a, b with KBool, KBool => ROk KBool | _, _ => RErr end
   | BXor | BOr | BAnd | Ls | Rs => of_opt (math_no_f64 a b)
